@@ -16,7 +16,7 @@ TRUSTED = ['reflection term <- typing object (harness/props/_checker_common.refl
 
 def cases(rng, tier):
     n = 12000 if tier == 'quick' else 150000
-    out = K.gen_checker_cases(rng, n)
+    out = K.gen_checker_cases(rng, n) + K.name_family()
     if tier == 'thorough':
         vals = K.small_values()
         for at in K.small_terms():
